@@ -121,7 +121,7 @@ func runC11(c *Ctx, r *Run) {
 				}
 			}
 			if u, ok := in.(*ssa.UnOp); ok {
-				if g, ok := u.X.(*ssa.Global); ok && g.Pkg == fn.Pkg && !strings.Contains(g.Name(), "Counter") && !strings.HasPrefix(g.Name(), "init$") {
+				if g, ok := u.X.(*ssa.Global); ok && g.Pkg == fn.Pkg && !strings.Contains(g.Name(), "Counter") && !strings.HasPrefix(g.Name(), "init$") && !isErrorType(derefType(g.Type())) {
 					bad = "read of package variable " + g.Name() + " at " + c.Pos(u.Pos())
 				}
 			}
